@@ -34,7 +34,8 @@ type c12Q struct {
 }
 
 func c12GenQ(t *rapid.T) c12Q {
-	sc := qScenario{MaxTries: rapid.IntRange(1, 3).Draw(t, "max_tries"), Partial: rapid.Bool().Draw(t, "partial"), Bounce: "ok"}
+	sc := qScenario{MaxTries: rapid.IntRange(1, 3).Draw(t, "max_tries"), Partial: rapid.Bool().Draw(t, "partial"), Bounce: "ok",
+		Parallelism: rapid.SampledFrom([]int{1, 1, 2, 16}).Draw(t, "max_parallelism")}
 	tmp := &verifx.ErrNode{Kind: "smtp", Code: 451, Ench: [3]int{4, 0, 0}, Msg: "later"}
 	for i, n := 0, rapid.IntRange(1, 3).Draw(t, "nmsgs"); i < n; i++ {
 		m := qMsg{ID: fmt.Sprintf("m%d", i), From: "sender@example.com", OriginalFrom: "sender@example.com",
@@ -193,6 +194,16 @@ func c12CheckQ(c c12Q, res vsched.Result, obs *c12QObs) (vs []ev.V) {
 	}
 	if !obs.closed && len(res.Panics) == 0 {
 		vs = append(vs, ev.Vf("queue:close-did-not-return", "Close did not return; trace %s", c12Trace(res)))
+	}
+	// shutdown: once Close has returned nothing is dispatched or still running
+	closedAt := -1
+	for i, e := range h.Events {
+		if e.Op == "close-end" {
+			closedAt = i
+		} else if closedAt >= 0 && e.Msg != "" && e.Op != "accepted" && e.Op != "accept-error" {
+			vs = append(vs, ev.Vf("queue:attempt-running-after-close", "message %s: %s event after Close had returned; %s\ntrace: %s", e.Msg, e.Op, c01Events(h), c12Trace(res)))
+			break
+		}
 	}
 	// dispatch exactly once / not early: attempts of one message are at least the retry delay apart
 	last := map[string]time.Duration{}
